@@ -114,4 +114,28 @@ def bounded(pb, interp, rng, tier):
                     same = same and ((va is None and vb is None) or (va is not None and vb is not None and (va == vb if not hasattr(va, "jd1") else (va.jd1, va.jd2) == (vb.jd1, vb.jd2))))
             if not same:
                 fail(f"{cname}", "pickle.round-trip", f"{cname},{be}", "attributes differ after pickling")
+    # dtypes outside every allowed set and with no safe cast into it: refused with ValueError, never an object,
+    # whatever kind they are (the statement says "unsafe ones refused ... raise ValueError")
+    exotic = {"datetime64": "M8[us]", "timedelta64": "m8[ms]", "structured": [("re", "f4"), ("im", "f4")], "void": "V8",
+              "bytes": "S4", "str": "U3", "object": "O", "clongdouble": "G", "longdouble": "g"}
+    for cname in ("IntensitySignal", "FullStokesSignal", "BasebandSignal", "DualPolarizationSignal"):
+        cls = getattr(pb, cname)
+        for label, code in exotic.items():
+            try:
+                arr = np.zeros(xsig[cname].shape, dtype=code)
+            except Exception:
+                continue
+            for be in ("numpy", "dask"):
+                if be == "dask" and label == "object":
+                    continue
+                d = arr if be == "numpy" else da.from_array(arr, chunks=(3,) + arr.shape[1:])
+                ev += 1
+                distinct.add((cname, "exotic", label, be))
+                try:
+                    cls(d, **base[cname])
+                    fail(f"{cname}.__init__", "exotic-dtype.accepted", f"{cname},{label},{be}", "an object was created")
+                except ValueError:
+                    pass
+                except Exception as e:
+                    fail(f"{cname}.__init__", "exotic-dtype.wrong-error", f"{cname},{label},{be}", f"{type(e).__name__}: {e}")
     return {"evaluations": ev, "distinct_nontrivial": len(distinct), "failures": fails, "samples": [{"case": "RadioSignal(sample_rate=nan Hz) must raise ValueError"}]}
